@@ -215,7 +215,9 @@ pub fn minimise<C: Check>(c: &C, scn: &C::Scn, class: &str) -> (C::Scn, u64) {
     let mut cur = scn.clone();
     let mut execs = 0u64;
     'outer: loop {
-        for cand in c.shrink(&cur) {
+        // a shrinker that trips over an already-shrunk scenario must not take the run down with it
+        let cands = std::panic::catch_unwind(std::panic::AssertUnwindSafe(|| c.shrink(&cur))).unwrap_or_default();
+        for cand in cands {
             if execs >= 3000 || t0.elapsed().as_secs_f64() > 30.0 {
                 break 'outer;
             }
